@@ -24,6 +24,9 @@ def crate_roots(tree):
             continue
         t = re.sub(r"//[^\n]*", "", txt)
         t = re.sub(r'"(?:[^"\\]|\\.)*"', '""', t)
+        # members of a use group (`use axum::{extract::Path, routing::get}`) are paths inside the crate, not crate roots
+        for _ in range(4):
+            t = re.sub(r"::\s*\{[^{}]*\}", "::GROUP", t)
         for m in re.finditer(r"(?<![A-Za-z0-9_:.])([a-z_][a-z0-9_]*)::", t):
             roots.add(m.group(1))
         for m in re.finditer(r"\buse\s+([a-z_][a-z0-9_]*)\s*(?:::|;| as )", t):
@@ -66,7 +69,10 @@ def inspect(proj, res):
     declared = set(deps)
     missing = used - declared
     # every `rust::` import is declared whether or not the generated code ends up referring to it
-    extra = declared - used - set(proj.get("expect_crates", ()))
+    allowed = set(proj.get("expect_crates", ()))
+    if proj["features"] & {"serde.derive", "json_stringify"}:
+        allowed |= {"serde", "serde_json"}  # the serde feature is used: both of its crates belong to it, referred to or not
+    extra = declared - used - allowed
     if missing:
         return Verdict("violated", "generated Rust refers to crate(s) Cargo.toml does not declare: %s" % sorted(missing), {"cargo_toml": ct})
     if extra:
